@@ -71,7 +71,7 @@ fn parse_op(line: &str) -> Option<Op> {
             let s = sup.strip_prefix("sup=")?;
             Op::Spawn(n(a)?, if s == "-" { None } else { Some(n(s)?) }, None)
         }
-        ["spawn", a, sup, name] => {
+        ["spawn", a, sup, name] | ["spawn", a, sup, name, _] => {
             let s = sup.strip_prefix("sup=")?;
             let nm = name.strip_prefix("name=")?;
             Op::Spawn(
@@ -149,7 +149,7 @@ impl Run {
                 if name.is_some() {
                     self.stats.bump("op.spawn-named");
                 }
-                self.w.spawn_named(*sup, name.as_deref());
+                self.w.spawn_any(*sup, name.as_deref()).await;
             }
             Op::Wait(w, a) => {
                 self.stats.bump("op.wait");
@@ -169,11 +169,11 @@ impl Run {
             }
             Op::PollSpawn(a) => {
                 self.stats.bump("op.pollspawn");
-                self.w.pollspawn(*a);
+                self.w.pollspawn_any(*a).await;
             }
             Op::DropSpawn(a) => {
                 self.stats.bump(&format!("op.dropspawn@{}", open_of(&self.w, *a)));
-                self.w.dropspawn(*a);
+                self.w.dropspawn_any(*a).await;
             }
             Op::Poll(a) => {
                 self.stats.bump("op.poll");
@@ -274,7 +274,11 @@ impl Run {
                 _ => {}
             }
         }
-        self.log.rec(op.to_string(), obs);
+        let line = match &op {
+            Op::Spawn(..) if self.w.local.is_some() => format!("{op} kind=local"),
+            _ => op.to_string(),
+        };
+        self.log.rec(line, obs);
     }
 
     fn alive(&self, a: usize) -> bool {
@@ -651,6 +655,7 @@ fn main() {
     let out = args.str("out", ".work/life");
     let corpus = args.str("replay-ops", "");
     let only_replay = args.u64("only-replay", 0) != 0;
+    let local = args.u64("local", 0) != 0;
     let do_sweep = args.u64("sweep", 1) != 0 && !only_replay;
     let cases = if only_replay { 0 } else { cases };
     run_paused(async move {
@@ -664,6 +669,10 @@ fn main() {
             pending_waits: Vec::new(),
             held: Default::default(),
         };
+        if local {
+            // thread-local actor variant: every actor is a `ThreadLocalActor` on one spawner thread
+            run.w.use_thread_local();
+        }
         // 1. corpus (minimised past failures, finding witnesses)
         for f in corpus.split(',').filter(|f| !f.is_empty()) {
             let txt = std::fs::read_to_string(f).unwrap_or_default();
